@@ -160,6 +160,21 @@ pub fn plan(prop: &str, tier: &str, seed: u64) -> Option<Plan> {
             p.jobs = seq_jobs(prop, seed, "rel", 12, n_rel, secs, 0);
             // overflow-checked build: arena panics become observable events
             p.jobs.extend(seq_jobs(prop, seed, "dbg", 4, n_rel / 4, secs, 1_000_000));
+            if prop == "C13" {
+                // multi-threaded part: refs() accounting, clone/drop/send of owned buffers under the scheduler
+                p.jobs.extend(sched_jobs(prop, seed, "A", 2, if quick { 1500 } else { 100000 }, if quick { 25 } else { 600 }, false));
+                p.jobs.extend(sched_jobs(prop, seed, "B", 2, if quick { 1500 } else { 100000 }, if quick { 25 } else { 600 }, false));
+                if !quick && have("asan") {
+                    // leak / invalid-free second opinion (address-remembering monitors off)
+                    let mut a = free_jobs(prop, seed, "asan", "A", 4, 3000, 300);
+                    for j in a.iter_mut() {
+                        j.env.retain(|e| e.0 != "ASAN_OPTIONS");
+                        j.env.push(("ASAN_OPTIONS".into(), "detect_leaks=0:halt_on_error=1:exitcode=67".into()));
+                        j.env.push(("VH_NO_WATCH".into(), "1".into()));
+                    }
+                    p.jobs.extend(a);
+                }
+            }
             if !quick && have("asan") {
                 let mut a = seq_jobs(prop, seed, "asan", 4, 20000, 300, 2_000_000);
                 for j in a.iter_mut() {
@@ -182,7 +197,7 @@ pub fn plan(prop: &str, tier: &str, seed: u64) -> Option<Plan> {
                 "C08" => sv(&["c08_zero_checks_on_dirty_space.recycled", "c08_zero_checks_on_dirty_space.top-released", "c08_zero_checks_on_dirty_space.rewound", "c08_zero_checks.fresh", "c08_zero_checks.fresh-after-reopen"]),
                 "C10" => sv(&["c10_slow_path_policy_checks", "c10_split_remainders", "c10_whole_segment"]),
                 "C11" => sv(&["c10_slow_path_policy_checks"]),
-                "C13" => sv(&["c13_release_effect_checks", "c13_detach_checks", "c13_value_drop_checks", "c13_backing_checks", "original_arena_dropped_first"]),
+                "C13" => sv(&["c13_release_effect_checks", "c13_detach_checks", "c13_value_drop_checks", "c13_backing_checks", "original_arena_dropped_first", "refs_checks"]),
                 "C16" => sv(&["c16_accessor_tables_checked", "c16_first_allocation_checks"]),
                 "C17" => sv(&["c17_rewind_checks", "c17_clear_checks", "c17_fresh_twins_started"]),
                 "C18" => sv(&["c18_truncate_checks"]),
